@@ -310,6 +310,17 @@ fn shadow_init<I: Identifier>(state: &mut State<RealP>) -> ExecResult<()> {
     Ok(())
 }
 
+/// The same through the convenience method of `State` (`insert_evaluator` for the default identifier).
+fn shadow_init_via_helper<I: Identifier>(state: &mut State<RealP>) -> ExecResult<()> {
+    let seen = state.borrow::<SeenHandle>().0.clone();
+    if std::any::TypeId::of::<I>() == std::any::TypeId::of::<Global>() {
+        state.insert_evaluator(Tagged { tag: 'I', seen });
+    } else {
+        state.insert_evaluator_as::<I>(Tagged { tag: 'I', seen });
+    }
+    Ok(())
+}
+
 fn shadow_merge(state: &mut State<RealP>, inner: State<RealP>) -> ExecResult<()> {
     if let Ok(e) = inner.try_get_value::<Evaluations>() {
         if inner.contains_at_top::<Evaluations>() {
@@ -372,6 +383,8 @@ fn shadow_oracle<I: Identifier>(c: &ShadowCase, cl: &mut u64) -> Result<(), Fail
     let mut scoped: Box<dyn mahf::Component<RealP>> = if c.plain {
         *cl |= 16;
         Scope::new_with(|_| Ok(()), (0..inner).map(|_| step()).collect::<Vec<_>>(), shadow_merge)
+    } else if (c.pre + c.post + c.inner) % 2 == 1 {
+        Scope::new_with(shadow_init_via_helper::<I>, (0..inner).map(|_| step()).collect::<Vec<_>>(), shadow_merge)
     } else {
         Scope::new_with(shadow_init::<I>, (0..inner).map(|_| step()).collect::<Vec<_>>(), shadow_merge)
     };
